@@ -5,9 +5,9 @@
 package c16
 
 import (
-	"github.com/openfga/openfga/internal/verifh/e1"
 	"context"
 	"fmt"
+	"github.com/openfga/openfga/internal/verifh/e1"
 	"sort"
 	"strings"
 	"sync"
